@@ -107,6 +107,7 @@ Proof.
   destruct (update_col cur (potential o)) as [|n new] eqn:E.
   - cbn [fst snd]. repeat split; intros; try discriminate. rewrite <- U. reflexivity.
   - destruct o; cbn [fst snd]; try (repeat split; intros; try discriminate; exact U).
+    destruct (negb (lit_integral l)); cbn [fst snd]; [repeat split; intros; try discriminate; exact U|].
     pose proof (simplify_range_column_exact (n :: new) v) as S.
     destruct (simplify_range_column (n :: new)) as [|s1 srest]; cbn [fst snd]; repeat split; intros; try discriminate.
     + rewrite <- U. unfold lookup_has. rewrite <- S. reflexivity.
